@@ -49,6 +49,7 @@ public:
     void *alloc(std::size_t sz) {
         if (sz > _capacity) {
             ::operator delete (_ptr);
+            COCLS_VERIF_POINT("busy_n");
             _ptr = ::operator new(sz);
             _capacity = sz;
         }
